@@ -41,6 +41,7 @@ type entryT struct {
 type caseT struct {
 	Table    [][]int  `json:"table"`
 	By       bool     `json:"by"`
+	Sub      bool     `json:"sub"`
 	Slots    []slotT  `json:"slots"`
 	Script   []int    `json:"script"`
 	Comment  []int    `json:"comment"`
@@ -199,6 +200,9 @@ func (r *runner) describe(c *caseT) string {
 	d := strings.Join(parts, "; ")
 	if c.By {
 		d += "; plus untouched entries first and last"
+	}
+	if c.Sub {
+		d += "; every entry under sub/, script runs after `cd sub`"
 	}
 	return d
 }
